@@ -170,6 +170,15 @@ def ranges_part(rep: Report, mods, t: str, known, stats):
         elif kind == "sumrange":
             text = f"r = sum(range({rec['a']}, {rec['b']}))\n"
             envs, exps = [{}], [rec["exp"][0]]
+        elif kind in ("sumlit", "lenlit"):
+            fn_name = "sum" if kind == "sumlit" else "len"
+            lit = ", ".join(str(v) for v in rec["lit"])
+            for_text = [f"r = {fn_name}(({lit}{',' if len(rec['lit']) == 1 else ''}))\n", f"r = {fn_name}([{lit}])\n"]
+            text = for_text[stats.get("range_cases", 0) % 2]
+            envs, exps = [{}], [rec["exp"][0]]
+        elif kind == "lencomp":
+            text = f"r = len([x * {rec['s']} for x in range({rec['a']}, {rec['b']})])\n"
+            envs, exps = [{}], [rec["exp"][0]]
         elif kind == "sumcomp":
             text = f"r = sum([x * {rec['s']} for x in range({rec['a']}, {rec['b']})])\n"
             envs, exps = [{}], [rec["exp"][0]]
